@@ -250,6 +250,10 @@ func newsPathScanner(data []byte, _ bool) (advance int, token []byte, err error)
 	}
 
 	advance = 3 + int(data[2])
+	if len(data) < advance {
+		// The item continues beyond what the scanner has buffered so far: ask for more.
+		return 0, nil, nil
+	}
 	return advance, data[3:advance], nil
 }
 
